@@ -93,7 +93,10 @@ def run_unit(ctx):
         def __len__(self):
             return 0
 
-    cause = Boom("cause") if ctx.choose(2, "cause-truthiness") == 0 else FalsyBoom("falsy cause")
+    # what the failed call raised: an ordinary exception, a falsy one, or itself a CallError of ANOTHER plan's call (a call function that ran a
+    # nested uberjob.run which failed): the statement does not except any of them - call is the call of THIS plan, __cause__ the very object raised
+    ck = ctx.choose(3, "cause-truthiness")
+    cause = Boom("cause") if ck == 0 else FalsyBoom("falsy cause") if ck == 1 else errors.CallError(graph.Call(lambda: None))
 
     def fail(where):
         o = ctx.choose(3, where)
@@ -274,4 +277,6 @@ def update_run_totals_unit(ctx):
 
 from .sysprobe import replay_for as _replay_for  # noqa: E402
 
-REPLAYS = [("runpath.*", _replay_for([], 1500))]
+from .tracebacks import _replay_nested  # noqa: E402
+
+REPLAYS = [("runpath.run/C06*", _replay_nested), ("runpath.*", _replay_for([], 1500))]
